@@ -285,54 +285,16 @@ def check_chunk_step(repo, rep, rid="C12-R3", need="gcd-of-all"):
 
 
 def check_chunks_partition(repo, rep, rid="C12-R6"):
-    """the time loop of the fast simulator, interpreted for concrete (session length, step) pairs with its callees replaced by
-    recorders: the chunks handed to _simulate_new_candles partition [0, length) - consecutive, none reaching beyond the session -
-    and _execute_routes gets the same (index, step) as the chunk, so route execution is decided on the minutes really simulated"""
-    import ast
-    rep.rule(rid, "fast simulator time loop interpreted for session lengths 1..13 and steps 1, 3, 5 (callees recorded): the chunks "
-                  "[i, i+step) passed to _simulate_new_candles are consecutive, start at 0, end exactly at the session length "
-                  "(a trailing chunk is shortened, not read past the input), and _execute_routes receives the same (i, step)")
-    fn = repo.func(BT, "_skip_simulator")
-    loops = [n for n in ast.walk(fn) if isinstance(n, ast.For) and any(isinstance(c, ast.Call) and SL.last(SL.dotted(c.func)) == "_simulate_new_candles" for c in ast.walk(n))]
-    if len(loops) != 1:
-        raise AnalysisError(f"_skip_simulator: expected one time loop calling _simulate_new_candles, found {len(loops)}")
-    loop = loops[0]
-    n = 0
-    for step in (1, 3, 5):
-        for length in range(1, 14):
-            chunks, execs = [], []
-            stubs = W.base_stubs()
-            stubs[f"{BT}:_simulate_new_candles"] = lambda it, a, k, chunks=chunks: chunks.append((a[1], a[2]))
-            stubs[f"{BT}:_execute_routes"] = lambda it, a, k, execs=execs: execs.append((a[0], a[1]))
-            stubs[f"{BT}:_update_progress_bar"] = lambda it, a, k: None
-            stubs[f"{BT}:_execute_market_orders"] = lambda it, a, k: None
-            stubs[f"{BT}:save_daily_portfolio_balance"] = lambda it, a, k: None
-            it = Interp(repo, stubs=stubs)
-            fr = Frame(repo.module(BT), {"length": num(length), "candles_step": num(step), "candles": Unknown("candles"), "progressbar": Unknown("pb"),
-                                        "run_silently": True, "last_update_time": None})
-            try:
-                it.exec(loop, fr)
-            except NotInFragment as e:
-                raise AnalysisError(f"_skip_simulator time loop not interpretable: {e}")
-
-            def val(x):
-                return int(x.const_value()) if isinstance(x, R) and x.is_const() else None
-            cs = [(val(a), val(b)) for a, b in chunks]
-            pos, bad = 0, None
-            for a, b in cs:
-                if a is None or b is None or a != pos or b < 1:
-                    bad = f"chunk ({a}, {b}) does not continue at minute {pos}"
-                    break
-                pos = a + b
-            if bad is None and pos != length:
-                bad = f"chunks end at minute {pos}, the session has {length} minutes" + (" (the last chunk reaches beyond the input)" if pos > length else "")
-            if bad is None and [(val(a), val(b)) for a, b in execs] != cs:
-                bad = f"_execute_routes gets {[(val(a), val(b)) for a, b in execs]}, chunks are {cs}"
-            if bad:
-                rep.violation(rid, "fast|chunks", f"_skip_simulator with session length {length} and step {step}: {bad}; chunks = {cs}")
-            n += 1
-            rep.instance(rid, f"length={length}|step={step}", {"chunks": cs} if length in (12, 13) else None)
-    rep.floor(rid, 39)
+    """the fast simulator interpreted whole (engine E10) for every session length 1..13 with chunk lengths 1, 3 and 5: the chunks
+    handed to the matcher partition [0, length) - consecutive, none reaching beyond the session, the trailing one shortened - and
+    the strategies execute exactly after the minutes at which their candle closes (a full step for a shortened tail would run them)"""
+    from props import sessions as S
+    rep.rule(rid, "fast simulator interpreted whole for session lengths 1..13 and 1m / 3m / 5m routes (chunk = timeframe; matcher, strategies "
+                  "and order store recorded): the chunks handed to the matcher are consecutive, start at minute 0 and end exactly at the "
+                  "session length (a trailing chunk is shortened, never read past the input), and after each chunk the strategy runs iff "
+                  "its candle closed at the chunk's last minute")
+    S.check_cover(repo, rep, rid, cfgs=S.PARTITION_SESSIONS, sims=("_skip_simulator",))
+    S.check_protocol(repo, rep, rid, cfgs=S.PARTITION_SESSIONS, sims=("_skip_simulator",))
 
 
 def check_structure(repo, rep):
@@ -353,8 +315,11 @@ def check_fast_time(repo, rep):
                   "the chunk after matching (trace rule)")
     from vlib.traces import Tracer, Cfg, RAISE
     fn = repo.func(BT, "_simulate_price_change_effect_multiple_candles")
-    cfg = Cfg(call=lambda label, node: ("call", "execute") if label.endswith("order.execute") else None,
-              store=lambda label, node: ("store", "time") if label == "store.app.time" else None, loop_unroll=1)
+    from vlib.traces import make_inliner
+    inl = make_inliner(repo, lambda label: "." not in label.rstrip("()") and SL.last(label) not in ("_update_all_routes_a_partial_candle", "_get_executing_orders",
+                                                                                                      "_sort_execution_orders", "_check_for_liquidations"))
+    cfg = Cfg(call=lambda label, node: ("call", "execute") if label.endswith(".execute") and isinstance(node.func, ast.Attribute) and not node.args else None,
+              store=lambda label, node: ("store", "time") if label == "store.app.time" else None, inline=inl, max_depth=2, loop_unroll=1)
     n = 0
     for evs, ex in Tracer(repo, cfg).block(fn.body, (repo.module(BT), None), 0):
         if ex == RAISE:
